@@ -1054,10 +1054,10 @@ func runC11(seed int64, tier string, outDir string) *result {
 		faultRun := func(subset []cid.Cid, kind int) {
 			f := map[cid.Cid]faultKind{}
 			for _, c := range subset {
-				if kind < 3 {
+				if kind < len(kinds) {
 					f[c] = kinds[kind]
 				} else {
-					f[c] = kinds[rng.Intn(3)]
+					f[c] = kinds[rng.Intn(len(kinds))]
 				}
 			}
 			r := &c11Run{d: d, starts: heads, length: -1, conc: 1 + rng.Intn(8), faults: f}
@@ -1078,11 +1078,11 @@ func runC11(seed int64, tier string, outDir string) *result {
 					}
 				}
 				if n <= 5 || thorough {
-					for kind := 0; kind < 4; kind++ {
+					for kind := 0; kind <= len(kinds); kind++ { // each kind, then a random mix
 						faultRun(subset, kind)
 					}
 				} else {
-					faultRun(subset, mask%4)
+					faultRun(subset, mask%(len(kinds)+1))
 				}
 			}
 			exhaustive++
@@ -1099,7 +1099,7 @@ func runC11(seed int64, tier string, outDir string) *result {
 						subset = append(subset, c)
 					}
 				}
-				faultRun(subset, rng.Intn(4))
+				faultRun(subset, rng.Intn(len(kinds)+1))
 			}
 		}
 		// (D) excluded hashes (with and without faults)
@@ -1114,7 +1114,7 @@ func runC11(seed int64, tier string, outDir string) *result {
 			if i%2 == 1 {
 				for _, c := range d.order {
 					if rng.Intn(5) == 0 {
-						f[c] = kinds[rng.Intn(3)]
+						f[c] = kinds[rng.Intn(len(kinds))]
 					}
 				}
 			}
@@ -1135,6 +1135,63 @@ func runC11(seed int64, tier string, outDir string) *result {
 		}
 		exec("timeout", &c11Run{d: d, starts: heads, length: -1, conc: 1 + rng.Intn(4), timeout: 120 * time.Millisecond, stuck: stuck,
 			forced: i%2 == 0, choose: randChoose(), delay: 30})
+	}
+	// the same through each of the four loaders: FetchOptions.Timeout bounds the load although the caller's
+	// own context never ends
+	for i := 0; i < 2; i++ {
+		d := dags[rng.Intn(len(dags))]
+		src := d.logs[0]
+		if src.Len() < 2 {
+			continue
+		}
+		stuckCid := d.order[rng.Intn(len(d.order))]
+		ident := d.env.identity(d.idents[0])
+		tmo := 150 * time.Millisecond
+		loaders := map[string]func(ctx context.Context) error{
+			"NewFromMultihash": func(ctx context.Context) error {
+				mh, err := src.ToMultihash(ctx)
+				if err != nil {
+					return err
+				}
+				_, err = ipfslog.NewFromMultihash(ctx, d.api, ident, mh, &ipfslog.LogOptions{IO: c11IO()}, &ipfslog.FetchOptions{Timeout: tmo})
+				return err
+			},
+			"NewFromEntryHash": func(ctx context.Context) error {
+				_, err := ipfslog.NewFromEntryHash(ctx, d.api, ident, src.Heads().Slice()[0].GetHash(), &ipfslog.LogOptions{ID: src.GetID(), IO: c11IO()}, &ipfslog.FetchOptions{Timeout: tmo})
+				return err
+			},
+			"NewFromJSON": func(ctx context.Context) error {
+				_, err := ipfslog.NewFromJSON(ctx, d.api, ident, src.ToJSONLog(), &ipfslog.LogOptions{IO: c11IO()}, &entry.FetchOptions{Timeout: tmo})
+				return err
+			},
+			"NewFromEntry": func(ctx context.Context) error {
+				_, err := ipfslog.NewFromEntry(ctx, d.api, ident, src.Heads().Slice(), &ipfslog.LogOptions{IO: c11IO()}, &entry.FetchOptions{Timeout: tmo})
+				return err
+			},
+		}
+		for _, name := range []string{"NewFromMultihash", "NewFromEntryHash", "NewFromJSON", "NewFromEntry"} {
+			res.Evaluations++
+			ctx, cancel := context.WithCancel(context.Background())
+			d.dag.gate = func(gctx context.Context, c cid.Cid) {
+				if c == stuckCid {
+					<-gctx.Done()
+				}
+			}
+			done := make(chan struct{})
+			t0 := time.Now()
+			go func() { _ = loaders[name](ctx); close(done) }()
+			select {
+			case <-done:
+				if w := time.Since(t0); w > tmo+2*time.Second {
+					mon.fail("terminates-within-timeout", "C11:timeout-overrun", fmt.Sprintf("%s with Timeout %v and one stuck block returned after %v", name, tmo, w), map[string]interface{}{"loader": name, "dag": d.name})
+				}
+			case <-time.After(tmo + 6*time.Second):
+				mon.fail("terminates-within-timeout", "C11:timeout-overrun", fmt.Sprintf("%s with Timeout %v and one stuck block had not returned after %v (the caller's own context never ends)", name, tmo, tmo+6*time.Second), map[string]interface{}{"loader": name, "dag": d.name})
+			}
+			cancel()
+			<-done
+			d.dag.gate = nil
+		}
 	}
 	// timeout configured but never reached
 	for i := 0; i < 4; i++ {
